@@ -7,7 +7,9 @@
    decoder - frame dimensions, the image's colour type, depth and interlacing - maps to the same picture as the frame's old
    data (alpha-equivalent under alpha optimisation), for all ten filter strategies, every compressor, every subset of
    frames skipped by the clock. Colour type / bit depth / interlacing are unchanged because preprocess_chunks disables
-   all reductions when acTL is present (C14_decision_table) and C08 applies. *)
+   all reductions when acTL is present (C14_decision_table) and C08 applies.
+   FILE TO FILE (second half): the animation read by the APNG specification (Spec/Apng.v) from the input and from the written chunk
+   sequence - same frames, fields, default-image flag, play count; header untouched; every frame the same picture. *)
 From OxiVerif Require Import Base.Common Spec.Adam7 Model.Types Model.Options Model.Headers Model.PngData Model.Optimize
   Proofs.ChunkProofs Proofs.ApngProofs Proofs.LiftColor Proofs.FramePixels.
 
